@@ -350,11 +350,12 @@ impl Harness for C12 {
             }
         }
         // (b) fit with every seeding schedule; large spaces are split into jobs by leading coordinates
+        let mut fit_jobs: Vec<Job> = Vec::new();
         for k in [2usize, 3] {
             for n in k..=(if t { 5 } else { 4 }) {
                 let fix = if k == 3 { (n - 1).min(3) } else { (n - 2).min(2) };
                 for pre in prefixes(fix, 4) {
-                    jobs.push(Job::new(format!("fit-1d-n{}-k{}-pre{:?}", n, k, pre), json!({"kind": "fit", "n": n, "dim": 1, "side": 4, "k": k, "edges": t, "pre": pre})));
+                    fit_jobs.push(Job::new(format!("fit-1d-n{}-k{}-pre{:?}", n, k, pre), json!({"kind": "fit", "n": n, "dim": 1, "side": 4, "k": k, "edges": t, "pre": pre})));
                 }
             }
             for n in k..=(if t { 4 } else { 3 }) {
@@ -364,7 +365,7 @@ impl Harness for C12 {
                     if !t && k == 3 && (pre[0] != 0 || pre[1] != 0) {
                         continue;
                     }
-                    jobs.push(Job::new(format!("fit-2d-n{}-k{}-pre{:?}", n, k, pre), json!({"kind": "fit", "n": n, "dim": 2, "side": 3, "k": k, "edges": t, "pre": pre})));
+                    fit_jobs.push(Job::new(format!("fit-2d-n{}-k{}-pre{:?}", n, k, pre), json!({"kind": "fit", "n": n, "dim": 2, "side": 3, "k": k, "edges": t, "pre": pre})));
                 }
             }
         }
@@ -387,11 +388,13 @@ impl Harness for C12 {
                 }
             }
         }
+        // cheap, diverse jobs first; the large all-schedule fit jobs last
+        jobs.extend(fit_jobs);
         Plan {
             jobs,
             budget_s: if t { 2400 } else { 40 },
             case_deadline_ms: 20_000,
-            floors: vec![("assignment_ties", 1000), ("coincident_centroids", 1000), ("far_centroids", 1000), ("duplicate_rows", 1000), ("fits_to_convergence", 1000), ("edge_schedules", 10), ("structured_fits", 100)],
+            floors: vec![("assignment_ties", 1000), ("coincident_centroids", 1000), ("far_centroids", 1000), ("duplicate_rows", 1000), ("fits_to_convergence", 1000), ("edge_schedules", 10), ("structured_fits", 100), ("final_empty_cluster", 10)],
             bounds: json!({
                 "assignment_step": "every point sequence n<=4 (5 thorough) on {0..3} and n<=3 (4) on the 3x3 lattice x every centroid multiset of size 2,3 from the half-step grid plus far points",
                 "fit": format!("every such sequence (quick tier, 2-D with k=3: those starting at the lattice origin) with >=k distinct rows x k in {{2,3}} x max_iter in {{1,2,100}} x every first-index draw x every cutoff draw on a {}-point grid (covers every index of positive weight); edge answers u=0 and u=1-2^-53 on all instances in the thorough tier, on two small families in the quick tier", GRID),
